@@ -34,7 +34,7 @@ from .union_model import Cm, incube
 OBLIGATION_FLOOR = 40
 Z3_TIMEOUT_MS = 40000
 UNITS = ['UnitCube', 'Union', 'NeuralBound', 'NautilusBound', 'Ellipsoid',
-         'Mixture', 'Union.restructure']
+         'Mixture', 'Union.restructure', 'NautilusBound.compute']
 BRANCH_COVERED_FUNCTIONS = ()
 DEAD_BRANCHES = ()
 _EX = {}
@@ -245,13 +245,16 @@ def build(cx, fe, tier, info, only=None):
         # member (partition post of split)
         from . import C13
         keep = _EX.get('ex')
-        for u in ('trim', 'split'):
+        for u in ('compute', 'trim', 'split'):
             info3 = dict(functions=[])
             C13.build(cx, fe, tier, info3, only=u)
             info['functions'] = info.get('functions', []) + \
                 info3['functions']
         if keep is not None:
             _EX['ex'] = keep
+    if only in (None, 'NautilusBound.compute'):
+        from .C07_compute import compute_units
+        compute_units(cx, fe, info)
     info['assumptions'] = [
         'C07: UnitCubeEllipsoidMixture: the laws of complementary column '
         'sets (cube part / ellipsoid part of a point) are axioms; its compute() '
